@@ -60,6 +60,7 @@ fn main() {
             let reps: u64 = arg_val(&args, "--reps").and_then(|s| s.parse().ok()).unwrap_or(1);
             let mut spec = RunSpec::new(script, fe, cfg);
             spec.needs_dir = args.iter().any(|a| a == "--dir");
+            spec.via_entry = args.iter().any(|a| a == "--entry");
             let t = std::time::Instant::now();
             let mut last = None;
             let mut hashes = std::collections::HashSet::new();
